@@ -87,7 +87,7 @@ class SimComm(object):
             if not self.streaming:
                 try:
                     call.raw = self.plugin.handleGcodeQueuing(
-                        self, "queuing", cmd, None, gcode, subcode=subcode, tags=set())
+                        self, "queuing", cmd, None, gcode, subcode=subcode, tags=self._tags_for(src))
                     results = _normalize_command_handler_result(
                         cmd, None, gcode, subcode, set(), call.raw,
                         tags_to_add={"source:rewrite", "phase:queuing", "plugin:excluderegion"})
@@ -110,6 +110,19 @@ class SimComm(object):
         if self.on_call is not None:
             self.on_call(call)
         return bool(call.wire)
+
+    def _tags_for(self, src):
+        """The tags OctoPrint attaches to a command of that origin."""
+        if src == "file":
+            self.fileline = getattr(self, "fileline", 0) + 1
+            return {"source:file", "filepos:%d" % (self.fileline * 24), "fileline:%d" % self.fileline}
+        if src == "script" or (src == "plugin" and getattr(self, "in_script", None)):
+            return {"source:script", "script:%s" % (getattr(self, "in_script", None) or "afterPrintDone")}
+        if src == "terminal":
+            return {"source:api", "trigger:printer.commands"}
+        if src == "plugin":
+            return {"source:plugin", "plugin:excluderegion"}
+        return {"source:%s" % src}
 
     def _atcommand(self, command, call):
         if self.streaming and self.printing:
